@@ -28,6 +28,7 @@ model's executable definitions and prints one verdict line per disagreement:
   `DIFF <n> model=<...>`    the implementation outcome is not among the outcomes the model/spec accepts
   `BAD <n>`                 unparsable request (never defaulted)
   `NOTE <n> ...`            internal cross-check of the driver (model vs spec) failed
+  `INFO <n> ...`            informational (e.g. a store-operation trace that differs from the model's program): no verdict
 and a final `SUMMARY` line.
 -/
 open Zarrs Zarrs.Proto
@@ -97,7 +98,9 @@ partial def loop (h : IO.FS.Stream) (st : DState) (n : Nat) (ok diff bad : Nat) 
   match dispatch st l with
   | none => IO.println s!"BAD {n}"; loop h st (n + 1) ok diff (bad + 1)
   | some (st', acc, note) =>
-    if let some t := note then IO.println s!"NOTE {n} {t}"
+    -- a note starting with `info:` is informational (recorded in the evidence, never a verdict)
+    if let some t := note then
+      if t.startsWith "info:" then IO.println s!"INFO {n} {t}" else IO.println s!"NOTE {n} {t}"
     if acc.contains l.outcome || acc.contains "any" then loop h st' (n + 1) (ok + 1) diff bad
     else IO.println s!"DIFF {n} model={" || ".intercalate acc}"; loop h st' (n + 1) ok (diff + 1) bad
 
